@@ -267,7 +267,7 @@ def build_cases(ctx, n):
     comps = [[1.0, 1e-5, 0.25e-5, 0.0, 1e-9]]
     d8 = {"t0": 0.0, "len": 1.0, "q": -1.0, "v0": 0.875, "p0": [0.0, 0.0, 0.0], "v1": 0.8125, "p1": [0.0, 0.0, 1.0]}
     cases.append({"k": "scgen", "comps": comps, "d": d8, "n": 1, "u": [0.5, 0.75, 1e-5, 0.5, 0.25, 0.5, 0.5, 0.5], "corpus": "F8"})
-    kinds = ["rotate", "dndx", "ckvgen", "ckvgen", "ckvoff", "scgen", "scgen", "scoff", "matbad"]
+    kinds = ["rotate", "dndx", "ckvgen", "ckvgen", "ckvoff", "scgen", "scgen", "scoff", "matbad", "ckvchain", "scchain"]
     for i in range(n):
         k = kinds[i % len(kinds)]
         if k == "rotate":
@@ -292,15 +292,24 @@ def build_cases(ctx, n):
             nph = r.choice([1, 2, 3, 5])
             cases.append({"k": k, "es": es, "ns": ns, "d": gen_dist(r, v0, v1), "n": nph,
                           "u": gen_u(r, 40 * nph)})
-        elif k == "ckvoff":
+        elif k in ("ckvoff", "ckvchain"):
             es, ns = gen_material(r)
             if 1 / ns[-1] >= 0.9999:
                 ns = [x + 0.3 for x in ns]
             v0, v1 = gen_speeds(r, ns, above=r.random() < 0.6)
             lam_hint = r.choice([logu(r, -4, 1), logu(r, -2, 3)])
-            cases.append({"k": k, "es": es, "ns": ns, "pdg": r.choice([11, -11]), "epost": beta_to_energy(v1),
-                          "len": lam_hint, "v0": v0, "p0": [r.uniform(-5, 5) for _ in range(3)], "t0": logu(r, -12, -8),
-                          "p1": [r.uniform(-5, 5) for _ in range(3)], "u": gen_u(r, 120, extremes=False, nonzero=True)})
+            if k == "ckvchain":      # photons wanted: above threshold, a few to a few hundred expected
+                v0, v1 = gen_speeds(r, ns, above=True)
+                lam_hint = logu(r, -0.5, 2)
+            c_ = {"k": k, "es": es, "ns": ns, "pdg": r.choice([11, -11]), "epost": beta_to_energy(v1),
+                  "len": lam_hint, "v0": v0, "p0": [r.uniform(-50, 50) for _ in range(3)], "t0": logu(r, -12, -8),
+                  "u": gen_u(r, 120, extremes=False, nonzero=True)}
+            dl = gen_dir(r) if k == "ckvchain" else unit([r.gauss(0, 1) for _ in range(3)])
+            c_["p1"] = [a + lam_hint * b for a, b in zip(c_["p0"], dl)]
+            if k == "ckvchain":
+                c_["maxn"] = r.choice([1, 2, 3])
+                c_["u"] = gen_u(r, 140 + 40 * c_["maxn"], extremes=False, nonzero=True)
+            cases.append(c_)
         elif k == "scgen":
             comps = gen_scint(r, wide=(r.random() < 0.12))
             v0 = r.uniform(0.05, 0.9999)
@@ -310,13 +319,20 @@ def build_cases(ctx, n):
             if r.random() < 0.15:        # extreme normal draw (low tail of the wavelength)
                 u[1], u[2] = r.choice([0.75, r.uniform(0.7, 0.8)]), logu(r, -14, -4)
             cases.append({"k": k, "comps": comps, "d": gen_dist(r, v0, v1, q=r.choice([0.0, -1.0, 1.0])), "n": nph, "u": u})
-        elif k == "scoff":
+        elif k in ("scoff", "scchain"):
             yld = logu(r, -1, 4)
             mean = r.choice([10.0, 10.0 * (1 + 4 * EPS), 10.0 * (1 - 4 * EPS), logu(r, -3, 1), logu(r, 1, 5), r.uniform(5, 30), 0.0])
-            cases.append({"k": k, "res": r.choice([1.0, 0.0, r.uniform(0.1, 3)]), "yield": yld, "edep": mean / yld,
-                          "comps": gen_scint(r), "pdg": r.choice([11, -11]), "epost": logu(r, -2, 2), "len": logu(r, -3, 1),
-                          "v0": r.uniform(0.1, 0.9999), "p0": [r.uniform(-5, 5) for _ in range(3)], "t0": logu(r, -12, -8),
-                          "p1": [r.uniform(-5, 5) for _ in range(3)], "u": gen_u(r, 120, extremes=False, nonzero=True)})
+            if k == "scchain":
+                mean = r.choice([logu(r, 0, 1), logu(r, 1, 4), r.uniform(5, 30)])
+            c_ = {"k": k, "res": r.choice([1.0, 0.0, r.uniform(0.1, 3)]) if k == "scoff" else r.choice([1.0, r.uniform(0.1, 3)]),
+                  "yield": yld, "edep": mean / yld,
+                  "comps": gen_scint(r), "pdg": r.choice([11, -11]), "epost": logu(r, -2, 2), "len": logu(r, -3, 1),
+                  "v0": r.uniform(0.1, 0.9999), "p0": [r.uniform(-50, 50) for _ in range(3)], "t0": logu(r, -12, -8),
+                  "p1": [r.uniform(-50, 50) for _ in range(3)], "u": gen_u(r, 120, extremes=False, nonzero=True)}
+            if k == "scchain":
+                c_["maxn"] = r.choice([1, 2, 3])
+                c_["u"] = gen_u(r, 140 + 30 * c_["maxn"], extremes=False, nonzero=True)
+            cases.append(c_)
         elif k == "matbad":
             es, ns = gen_material(r, valid=False)
             cases.append({"k": "dndx", "es": es, "ns": ns, "q": -1.0, "beta": 0.9, "bad": True})
@@ -350,15 +366,17 @@ def case_line(c):
         return "dndx %s %s %s" % (vec(c["es"]), vec(c["ns"]), hx([c["q"], c["beta"]]))
     if k == "ckvgen":
         return "ckvgen %s %s %s %d %s" % (vec(c["es"]), vec(c["ns"]), dist_line(c["d"]), c["n"], vec(c["u"]))
-    if k == "ckvoff":
-        return "ckvoff %s %s %d %s %s" % (vec(c["es"]), vec(c["ns"]), c["pdg"],
-                                        hx([c["epost"], c["len"], c["v0"]] + c["p0"] + [c["t0"]] + c["p1"]), vec(c["u"]))
+    if k in ("ckvoff", "ckvchain"):
+        return "%s %s %s %d %s %s%s" % (k, vec(c["es"]), vec(c["ns"]), c["pdg"],
+                                       hx([c["epost"], c["len"], c["v0"]] + c["p0"] + [c["t0"]] + c["p1"]),
+                                       "%d " % c["maxn"] if k == "ckvchain" else "", vec(c["u"]))
     flat = [x for comp in c["comps"] for x in comp]
     if k == "scgen":
         return "scgen %s %s %s %d %s" % (hx([1.0, 5.0]), vec(flat), dist_line(c["d"]), c["n"], vec(c["u"]))
-    if k == "scoff":
-        return "scoff %s %s %d %s %s" % (hx([c["res"], c["yield"]]), vec(flat), c["pdg"],
-                                       hx([c["epost"], c["len"], c["edep"], c["v0"]] + c["p0"] + [c["t0"]] + c["p1"]), vec(c["u"]))
+    if k in ("scoff", "scchain"):
+        return "%s %s %s %d %s %s%s" % (k, hx([c["res"], c["yield"]]), vec(flat), c["pdg"],
+                                      hx([c["epost"], c["len"], c["edep"], c["v0"]] + c["p0"] + [c["t0"]] + c["p1"]),
+                                      "%d " % c["maxn"] if k == "scchain" else "", vec(c["u"]))
     raise ValueError(k)
 
 
@@ -383,8 +401,36 @@ def parse_impl(c, line):
             b = 3 + 12 * i
             ph.append(([f(x) for x in tok[b + 1:b + 12]], int(tok[b])))
         return {"exh": int(tok[1]), "photons": ph}
-    # offload
+    # offload (and chains: "... | exh n photons")
+    if "|" in tok:
+        b = tok.index("|")
+        rest = tok[b + 1:]
+        n = int(rest[1])
+        ph = [([f(x) for x in rest[2 + 12 * i + 1:2 + 12 * i + 12]], int(rest[2 + 12 * i])) for i in range(n)]
+        return {"consumed": int(tok[1]), "num": int(tok[2]), "valid": int(tok[3]), "fields": [f(x) for x in tok[4:b]],
+                "exh": int(rest[0]), "photons": ph}
     return {"consumed": int(tok[1]), "num": int(tok[2]), "valid": int(tok[3]), "fields": [f(x) for x in tok[4:]]}
+
+
+def chain_dist(c, impl):
+    """the step data handed to the offload (ORIGINAL pre/post positions); post speed = ParticleTrackView::speed"""
+    v1 = impl["v1"] if "v1" in impl else (impl["fields"][7] if impl.get("num", 0) > 0 else c["v1_py"])
+    return {"t0": c["t0"], "len": c["len"], "q": -1.0 if c["pdg"] == 11 else 1.0, "v0": c["v0"], "p0": c["p0"], "v1": v1, "p1": c["p1"]}
+
+
+def offload_fields_ok(c, impl):
+    """GeneratorDistributionData field by field against the step data (the model of the offload's output is the
+    record built from its inputs): time, step_length, charge, pre speed/pos, post speed/pos, material"""
+    f = impl["fields"]
+    exp = [c["t0"], c["len"], -1.0 if c["pdg"] == 11 else 1.0, c["v0"]] + c["p0"] + [f[7]] + c["p1"] + [0.0]
+    names = ["time", "step_length", "charge", "pre.speed", "pre.pos.x", "pre.pos.y", "pre.pos.z", "post.speed",
+             "post.pos.x", "post.pos.y", "post.pos.z", "material"]
+    bad = [n for n, a, b in zip(names, f, exp) if a != b]
+    if not close(f[7], c["v1_py"], rtol=1e-12):
+        bad.append("post.speed(vs kinematics)")
+    if not impl["valid"]:
+        bad.append("operator bool")
+    return bad, exp
 
 
 def model_expr(c, impl):
@@ -400,6 +446,13 @@ def model_expr(c, impl):
         v1 = impl["v1"] if "v1" in impl else impl["fields"][7] if impl.get("num", 0) > 0 else c["v1_py"]
         return "run_ckvoff K %s %s %s %s %s %s %s" % (fl(c["es"]), fl(c["ns"]), hexf(-1.0 if c["pdg"] == 11 else 1.0),
                                                       hexf(c["len"]), hexf(c["v0"]), hexf(v1), fl(c["u"]))
+    if k in ("ckvchain", "scchain"):
+        d = chain_dist(c, impl)
+        if k == "ckvchain":
+            return "run_ckvchain K %s %s %s %d%%nat %s" % (fl(c["es"]), fl(c["ns"]), dist_expr(d), c["maxn"], fl(c["u"]))
+        flat = [x for comp in c["comps"] for x in comp]
+        return "run_scchain K %s %s %s %s %s %d%%nat %s" % (hexf(c["yield"]), hexf(c["res"]), hexf(c["edep"]), fl(flat), dist_expr(d),
+                                                        c["maxn"], fl(c["u"]))
     if k == "scgen":
         flat = [x for comp in c["comps"] for x in comp]
         return "run_scgen K %s %s %d%%nat %s" % (fl(flat), dist_expr(c["d"]), c["n"], fl(c["u"]))
@@ -482,7 +535,7 @@ def run(ctx):
     pre = PRE0 + "Definition K := mkconsts %s.\n" % " ".join(hexf(x) for x in consts)
     impls = [parse_impl(c, l) for c, l in zip(cases + bulk, lines[1:])]
     for c in cases:
-        if c["k"] == "ckvoff":
+        if c["k"] in ("ckvoff", "ckvchain", "scoff", "scchain"):
             g = c["epost"] / ME + 1
             c["v1_py"] = math.sqrt(1 - 1 / (g * g))
     exprs = [model_expr(c, i) for c, i in zip(cases, impls)]
@@ -527,21 +580,37 @@ def run(ctx):
                 if bad and nbad < 1:
                     nbad += 1
                     oracle_fail(c, bad[0], bad[1], {"photon": ph})
-        elif k == "ckvoff" and "num" in impl:
-            v1 = impl["fields"][7] if impl["num"] > 0 else c["v1_py"]
-            inv_beta = 1 / (0.5 * (c["v0"] + v1))
-            margin = abs(inv_beta - c["ns"][-1]) / c["ns"][-1]
-            below = inv_beta > c["ns"][-1] and margin > 1e-12
-            ctx.count("ckvoff:" + ("below-threshold" if below else "above-threshold"))
-            if below and (impl["num"] != 0 or impl["consumed"] != 0):
-                oracle_fail(c, "Cerenkov photons requested below threshold (num=%d)" % impl["num"], None, {"impl": impl})
-            if impl["num"] > 0:
-                exp_f = [c["t0"], c["len"], -1.0 if c["pdg"] == 11 else 1.0, c["v0"]] + c["p0"] + [v1] + c["p1"]
-                if not impl["valid"] or impl["fields"] != exp_f:
-                    oracle_fail(c, "offload distribution data do not carry the step data", None, {"impl": impl, "expected": exp_f})
-        elif k == "scoff" and "num" in impl:
-            if c["yield"] * c["edep"] <= 0 and impl["num"] != 0:
+        elif k in ("ckvoff", "ckvchain", "scoff", "scchain") and "num" in impl:
+            if k in ("ckvoff", "ckvchain"):
+                v1 = impl["fields"][7] if impl["num"] > 0 else c["v1_py"]
+                inv_beta = 1 / (0.5 * (c["v0"] + v1))
+                margin = abs(inv_beta - c["ns"][-1]) / c["ns"][-1]
+                below = inv_beta > c["ns"][-1] and margin > 1e-12
+                ctx.count("%s:%s" % (k, "below-threshold" if below else "above-threshold"))
+                if below and (impl["num"] != 0 or impl["consumed"] != 0):
+                    oracle_fail(c, "Cerenkov photons requested below threshold (num=%d)" % impl["num"], None, {"impl": impl})
+            elif c["yield"] * c["edep"] <= 0 and impl["num"] != 0:
                 oracle_fail(c, "scintillation photons requested for zero energy deposition", None, {"impl": impl})
+            if impl["num"] > 0:
+                # the offload's OUTPUT distribution data, field by field
+                bad, exp_f = offload_fields_ok(c, impl)
+                ctx.count("offload-data-checked:" + k)
+                if bad:
+                    oracle_fail(c, "%s output does not carry the step data: field(s) %s differ" % (
+                        "CerenkovOffload" if k.startswith("ckv") else "ScintillationOffload", ", ".join(bad)),
+                        None, {"impl_fields": impl["fields"], "expected_fields": exp_f})
+            elif any(x != 0 for x in impl["fields"][:11]) or impl["valid"]:
+                oracle_fail(c, "empty distribution expected when no photons are requested", None, {"impl": impl})
+            if "photons" in impl:
+                # chain: photons generated from the data the real offload produced, judged against the ORIGINAL step
+                d0 = chain_dist(c, impl)
+                kind = "ckv" if k == "ckvchain" else "scint"
+                for ph, _ in impl["photons"]:
+                    nphot += 1
+                    bad = photon_oracle(kind, ph, d0, (c["es"], c["ns"]) if kind == "ckv" else None)
+                    if bad:
+                        oracle_fail(c, "offload->generator chain: " + bad[0], bad[1], {"photon": ph, "offload_output": impl["fields"]})
+                        break
         if is_bulk:
             ctx.case((k, idx, c["u"][:3]), nontrivial=bool(impl.get("photons")))
             continue
@@ -587,7 +656,7 @@ def run(ctx):
             ctx.sample({"kind": k, "impl_first": impl["photons"][:1], "model_first": list(model)[:1]})
             if not photons_agree(impl["photons"], list(model), c["d"], rotated=(k == "ckvgen")):
                 disagree(c, impl, model, "photon list")
-        elif k in ("ckvoff", "scoff"):
+        elif k in ("ckvoff", "scoff", "ckvchain", "scchain"):
             if impl.get("exhausted"):
                 ctx.case(key, False)
                 if model is not None:
@@ -600,6 +669,11 @@ def run(ctx):
                     ctx.count("knife-edge-accepted")      # rounding of x + 0.5 / p*u ~ 1
                 else:
                     disagree(c, impl, model, "photon count / draws")
+            elif "photons" in impl:
+                ctx.count("%s:photons=%d" % (k, len(impl["photons"])))
+                mph = [(list(a), b + model[1]) for a, b in model[2]]
+                if not photons_agree(impl["photons"], mph, chain_dist(c, impl), rotated=(k == "ckvchain")):
+                    disagree(c, impl, model, "photons of the offload->generator chain")
     if not proofs_ok:
         ctx.violation("proof-broken", "Properties_C20.v no longer checks", ctx.broken_proof, no_input=found_input[0] is False)
     ctx.coverage["rule"] = ("cases = (kind, material tables, step data, uniform stream) drawn from one PRNG seeded by VERIF_SEED, "
